@@ -540,7 +540,7 @@ fn height() -> BoxedStrategy<u16> {
     prop_oneof![6 => 1u16..=3, 3 => (0..GRID_H.len()).prop_map(|i| GRID_H[i]), 1 => 1u16..=1000].boxed()
 }
 
-/// writers that walk every cell of the document (cost ~ width x height); the stream writers only walk the rows that have content
+/// writers that emit every cell of the document (the stream writers emit only the rows that have content)
 fn walks_all_cells(fmt: u8) -> bool {
     matches!(fmt, BIN | XB | TND | ADF | IDF | ICY)
 }
@@ -565,9 +565,16 @@ fn normalise(fmt: u8, meta: &mut Meta, height: &mut u16, tag: u8) {
         }
         _ => {}
     }
-    if walks_all_cells(fmt) {
-        *height = (*height).min((6_000 / meta.width.max(1)).max(1));
-    }
+    // cost: every writer ends up walking width x height cells (the stream writers through the colour optimiser's copy of the document);
+    // one stream document in 16 keeps its full size (up to 1000 x 1000), the size_grid part covers the large sizes systematically
+    let cap: u32 = if walks_all_cells(fmt) {
+        6_000
+    } else if tag % 16 == 0 {
+        1_000_000
+    } else {
+        8_000
+    };
+    *height = (*height).min((cap / meta.width.max(1) as u32).max(1) as u16);
 }
 
 fn prev_meta(fmt: u8) -> BoxedStrategy<Meta> {
@@ -1245,7 +1252,7 @@ fn main() {
 
     let mut eng = Engine::new("C11");
     eng.rule(
-        "meta_roundtrip/writer_split: documents of height {1..=3 | grid heights 1,2,24,25,26,43,50,60,100,200,350,400,480,600,1000 | 1..=1000} (capped to 6000 cells for writers that walk every cell, 200 rows for idf, 3 for icy), width from {80,160,1..=1000,edges,grid widths}, \
+        "meta_roundtrip/writer_split: documents of height {1..=3 | grid heights 1,2,24,25,26,43,50,60,100,200,350,400,480,600,1000 | 1..=1000} (capped to 6000 cells for bin/xb/tnd/adf/idf, to 8000 cells for 15 of 16 ans/asc/pcb/avt documents, 200 rows for idf, 3 for icy), width from {80,160,1..=1000,edges,grid widths}, \
          buffer history {fresh | loaded from a file saved with other metadata, then edited | set_sauce(older record, resize) then edited: size, ice mode, font 0, content replaced, record texts/LS/AR updated, record font_opt/use_ice left stale}, title/author/group = CP437 bytes 1..=255 of length 0..=35/20/20 (forced maximal and \
          maximal-1 lengths) plus trailing blanks/NULs, 0..=255 comment lines (forced 250..=255; blocks longer than 3 lines repeat a generated pattern of 1..=4 lines) of 0..=64 bytes without interior NUL, ice/letter-spacing/aspect-ratio, font 0 renamed to a SAUCE \
          font name or arbitrary <=22 CP437 bytes, saved by each SAUCE writer (ans asc avt pcb bin xb tnd adf idf icy) and loaded with Buffer::from_bytes; writer_split is biased to the loader defaults \
